@@ -21,7 +21,7 @@ from typing import (
     Tuple,
 )
 
-from pyrefact import core, formatting, logs as logger
+from pyrefact import constants, core, formatting, logs as logger
 
 __all__ = ["find_replace", "fix"]
 
@@ -879,6 +879,31 @@ def chain(fix_funcs: Iterable[Callable], max_iter: int = 10) -> Callable:
     return func_chain
 
 
+def _taken_apart_by_context(source: str, replacement_range: core.Range, replacement: str) -> bool:
+    """Whether an expression, put in place of another, is parsed as something else than itself.
+
+    `a + a` in place of `a * 2` in `a * 2 * b` is, it becomes `a + (a * b)`.
+    """
+    try:
+        expression = ast.parse(replacement.strip(), mode="eval").body
+    except (SyntaxError, ValueError):
+        return False
+
+    if isinstance(expression, constants.AST_ATOM_TYPES):
+        return False  # Nothing binds tighter than these
+
+    before, after = source[: replacement_range.start], source[replacement_range.end :]
+    try:
+        parenthesized = ast.dump(ast.parse(f"{before}({replacement}){after}"))
+    except (SyntaxError, ValueError):
+        return False
+
+    try:
+        return ast.dump(ast.parse(f"{before}{replacement}{after}")) != parenthesized
+    except (SyntaxError, ValueError):
+        return True
+
+
 def find_replace(
     source: str,
     find: str | ast.AST,
@@ -963,6 +988,11 @@ def find_replace(
         template_replacement = template_replacement[
             min(indentation, len(template_replacement) - len(template_replacement.lstrip(" "))) :
         ]
+
+        if isinstance(matches[0][0], ast.expr) and _taken_apart_by_context(
+            source, replacement_range, template_replacement
+        ):
+            template_replacement = f"({template_replacement})"
 
         item = [replacement_range, template_replacement]
         if transaction is not None:
